@@ -32,6 +32,10 @@ class Amuset(probe.Contract):
         self.api = 'tedmd.' + name
         self.name = name
 
+    def pre(self, args, kwargs):
+        del REDUCED[:]
+        return None
+
     def post(self, st, res, args, kwargs):
         c = core.ctx()
         check_returned(self.api, res)
@@ -170,14 +174,41 @@ class Amuset(probe.Contract):
             R = K @ Xi - Xi @ np.diag(lam)
             scale = max(float(np.max(np.abs(Xi))), 1e-300) * max(float(np.linalg.norm(K, 2)), 1e-300)
             err = float(np.max(np.abs(R))) / scale
+            if err > 1e-6 * max(1.0, condV) and lapack_eig_inaccurate(k):
+                tags = tags + ['lapack_eig_inaccurate_on_reduced_matrix']
             c.check(self.api, 'eigentensors_satisfy_eigen_equation', err <= 1e-6 * max(1.0, condV), tags, {'rel_residual': err, 'condV': condV, 'modes': n, 'pair': k}, prop=P)
         c.sig(self.api, n, m, len(xs), batch)
+
+
+REDUCED = []  # reduced matrices handed out by the library's own helper during the current AMUSEt call (one per index-set pair)
+
+
+def _reduced_post(st, res, args, kwargs):
+    try:
+        REDUCED.append(np.array(res[0], copy=True))
+    except Exception:
+        REDUCED.append(None)
+
+
+def lapack_eig_inaccurate(k):
+    """observed at the library's helper: does numpy.linalg.eig, applied to the reduced matrix of pair k as the library applies it,
+    return an eigenpair with a large residual?  (LAPACK's balancing is harmful on reduced matrices with a row of rounding-level entries
+    - exact zeros in exact arithmetic: the eigenvector of the isolated eigenvalue comes back as a unit vector.)"""
+    if k >= len(REDUCED) or REDUCED[k] is None:
+        return False
+    M = REDUCED[k]
+    try:
+        w, W = np.linalg.eig(M)
+        return float(np.max(np.abs(M @ W - W @ np.diag(w)))) > 1e-8 * max(float(np.linalg.norm(M, 2)), 1e-300)
+    except Exception:
+        return False
 
 
 def install():
     te = importlib.import_module('scikit_tt.data_driven.tedmd')
     if getattr(te, '__vt_c18__', False):
         return te
+    probe.hook(te, '_reduced_matrix', 'tedmd._reduced_matrix', post=_reduced_post)
     probe.install(te, 'amuset_hosvd', Amuset('amuset_hosvd'))
     probe.install(te, 'amuset_hocur', Amuset('amuset_hocur'))
     te.__vt_c18__ = True
